@@ -9,6 +9,7 @@
 import Props.Defs
 import Proofs.SegFactory
 import Proofs.Extra
+import Proofs.FirstRun
 namespace Coma.Props
 open Coma Coma.Spec
 
@@ -84,5 +85,22 @@ theorem C13_flush_complete (ms bst : Int) (scores : List Int) :
     let st := scanFrom ms bst {} 0 scores
     ∀ r, st.cur = some r → ms ≤ r.score → r ∈ scanRanges ms bst scores :=
   Coma.Proofs.scan_flush_complete ms bst scores
+
+end Coma.Props
+
+namespace Coma.Props
+open Coma Coma.Spec
+
+/-- (g), completeness for the FIRST run: from the first positive score on, follow the running sum until the first break
+    (sum ≤ 0, or sum ≤ running maximum − threshold); if the maximum reached before that break is at least `minScore`,
+    that run — `firstRun`, an executable restatement of the harness oracle — is the first segment the factory reports; in
+    particular the result is then not the single empty segment.  (Completeness for LATER runs is not claimed: a pending
+    run below `minScore` is not reset at a break, segments_factory.py:63-66.) -/
+theorem C13_first_run_complete (ms bst : Int) (scores : List Int) (hb : 0 ≤ bst) (hm : 0 < ms) (r : Rng)
+    (h : Coma.Proofs.firstRun ms bst scores = some r) : (scanRanges ms bst scores).head? = some r :=
+  Coma.Proofs.scanRanges_first_run ms bst scores hb hm r h
+
+/-- non-vacuity: the default thresholds; the first run of a list that starts with two unpaired labels -/
+example : Coma.Proofs.firstRun 1000 1200 [-250, -250, 1000, 900, -250, 800] = some ⟨2, 6, 2450⟩ := by decide
 
 end Coma.Props
